@@ -18,6 +18,7 @@ import (
 	"bytes"
 	"context"
 	"fmt"
+	"math"
 	"sync"
 
 	"github.com/openGemini/openGemini/engine/hybridqp"
@@ -498,8 +499,14 @@ func (trans *FillTransform) computeGroup(c Chunk, tagIdxAt, tagStartIdx, tagEndI
 			start = binarysearch.UpperBoundInt64Ascending(c.Time()[tagStartIdx:tagEndIdx], startTime)
 			end = binarysearch.LowerBoundInt64Ascending(c.Time()[tagStartIdx:tagEndIdx], endTime)
 		} else {
+			// the first descending slice holds the first window only, so the slices may end above the last
+			// windows of the range: the last slice takes every remaining row (the windows are filled by compute)
+			lowest := startTime
+			if j == fillChunkNum-1 {
+				lowest = math.MinInt64
+			}
 			start = binarysearch.LowerBoundInt64Descending(c.Time()[tagStartIdx:tagEndIdx], endTime)
-			end = binarysearch.UpperBoundInt64Descending(c.Time()[tagStartIdx:tagEndIdx], startTime)
+			end = binarysearch.UpperBoundInt64Descending(c.Time()[tagStartIdx:tagEndIdx], lowest)
 		}
 
 		if start == -1 || end == -1 || start > end {
